@@ -173,11 +173,12 @@ def deal(seed, tier, nhist, per):
     return [deck[i * per:(i + 1) * per] for i in range(nhist)]
 
 
-def plan_history(rng, index, dealt):
+def plan_history(rng, index, dealt, rot=0):
     """-> (history before the directed insertions of gen_history, forced project features)"""
     hist = list(dealt)
+    # (the seed rotates which structural edits the 16 quick histories pair up)
     pair = [SKIP_EDITS[index % len(SKIP_EDITS)],
-            STRUCT_EDITS[(index // 2) % len(STRUCT_EDITS)]]
+            STRUCT_EDITS[(index // 2 + 8 * rot) % len(STRUCT_EDITS)]]
     if pair[1] == 'fill-empty-dir':
         pair[0] = 'add-empty-dir'
     if pair[1] == 'remove-plugin':
@@ -539,7 +540,7 @@ def cases(tier, seed):
     dealt = deal(seed, tier, n, per)
     for i in range(n):
         rng = core.rng_for(seed, 'c08', i)
-        planned, force = plan_history(rng, i, dealt[i])
+        planned, force = plan_history(rng, i, dealt[i], rot=seed)
         project = gen_project(rng, force)
         hist = gen_history(rng, project, len(planned), planned)
         for backend in ('make', 'ninja'):
@@ -623,6 +624,7 @@ def run_case(case):
                 res.ev('edits:watched-dir-only')
             w = dict(wb, edit=k2, detail=desc, history=list(applied),
                      multi_output_regen=feats['pkgconf'])
+            before = live.primary_files()
             rc, out, nproc, recs = live.run_backend()
             if rc != 0:
                 res.violate((backend, 'regen-blocked', k2), dict(w, output=out[-900:]))
@@ -633,7 +635,9 @@ def run_case(case):
             res.ev('steps:compared-with-fresh')
             if now != fresh:
                 bad = sorted(n for n in set(now) | set(fresh) if now.get(n) != fresh.get(n))
-                kindv = 'regen-missed' if nproc == 0 else 'regen-differs'
+                # missed = the build files still are what they were before the edit (no bfg9000
+                # process at all, or a lazy one that decided there was nothing to do)
+                kindv = 'regen-missed' if nproc == 0 or now == before else 'regen-differs'
                 oo = order_only(now, fresh, bad)
                 if oo:
                     kindv, k2v = 'regen-differs-in-order-only', oo
